@@ -108,6 +108,7 @@ DateCatalogue == <<
   [s |-> S("1969-12-31T23:59:59.999999999Z"), v |-> [k |-> "ok", z |-> ZFromInt(-1)]],
   [s |-> S("2000-02-29T12:00:00-05:30"), v |-> [k |-> "ok", z |-> Instant(2000, 2, 29, 17, 30, 0, ZZero)]],
   [s |-> S("2015-07-30"), v |-> Invalid],
+  [s |-> S("2015-07-30T03:26:13"), v |-> Invalid],              \* no offset: not an instant
   [s |-> S("2015-13-01T00:00:00Z"), v |-> Invalid],
   [s |-> S("2015-02-30T00:00:00Z"), v |-> Invalid],
   [s |-> S("abc"), v |-> Invalid],
